@@ -696,12 +696,12 @@ func (c1 float64Const) binaryOp(op ast.OperatorType, c2 constant) (constant, err
 		if n2 == 0 {
 			return n1, nil
 		}
-		return n1.asFloat().binaryOp(op, n2.asFloat())
+		return n1.asExact().binaryOp(op, n2.asExact())
 	case ast.OperatorSubtraction:
 		if n2 == 0 {
 			return n1, nil
 		}
-		return n1.asFloat().binaryOp(op, n2.asFloat())
+		return n1.asExact().binaryOp(op, n2.asExact())
 	case ast.OperatorMultiplication:
 		if n1 == 0 || n2 == 0 {
 			return float64Const(0), nil
@@ -712,7 +712,7 @@ func (c1 float64Const) binaryOp(op ast.OperatorType, c2 constant) (constant, err
 		if n2 == 1 {
 			return n1, nil
 		}
-		return n1.asFloat().binaryOp(op, n2.asFloat())
+		return n1.asExact().binaryOp(op, n2.asExact())
 	case ast.OperatorDivision:
 		if n2 == 0 {
 			return nil, errDivisionByZero
@@ -720,7 +720,7 @@ func (c1 float64Const) binaryOp(op ast.OperatorType, c2 constant) (constant, err
 		if n2 == 1 {
 			return n1, nil
 		}
-		return n1.asFloat().binaryOp(op, n2.asFloat())
+		return n1.asExact().binaryOp(op, n2.asExact())
 	}
 	return nil, errInvalidOperation
 }
@@ -780,6 +780,15 @@ func bigFloat() *big.Float {
 
 func (c1 float64Const) asFloat() floatConst {
 	return floatConst{f: bigFloat().SetFloat64(float64(c1))}
+}
+
+// asExact returns c1 as a constant with exact arithmetic: a rational if c1
+// is finite.
+func (c1 float64Const) asExact() constant {
+	if r := new(big.Rat).SetFloat64(float64(c1)); r != nil {
+		return ratConst{r: r}
+	}
+	return c1.asFloat()
 }
 
 // floatConst represents a floating point constant.
@@ -935,6 +944,16 @@ func newRatConst(x, y int64) ratConst {
 	return ratConst{r: big.NewRat(x, y)}
 }
 
+// makeRatConst returns r as a rational constant if its numerator and
+// denominator are small, otherwise as a floating point constant.
+func makeRatConst(r *big.Rat) constant {
+	const maxBits = 4 << 10
+	if r.Num().BitLen() < maxBits && r.Denom().BitLen() < maxBits {
+		return ratConst{r: r}
+	}
+	return newFloatConst(0).setRat(r)
+}
+
 func (c1 ratConst) String() string {
 	return newFloatConst(0).setRat(c1.r).String()
 }
@@ -989,16 +1008,16 @@ func (c1 ratConst) binaryOp(op ast.OperatorType, c2 constant) (constant, error) 
 			return boolConst(cmp >= 0), nil
 		}
 	case ast.OperatorAddition:
-		return ratConst{r: new(big.Rat).Add(n1.r, n2.r)}, nil
+		return makeRatConst(new(big.Rat).Add(n1.r, n2.r)), nil
 	case ast.OperatorSubtraction:
-		return ratConst{r: new(big.Rat).Sub(n1.r, n2.r)}, nil
+		return makeRatConst(new(big.Rat).Sub(n1.r, n2.r)), nil
 	case ast.OperatorMultiplication:
-		return ratConst{r: new(big.Rat).Mul(n1.r, n2.r)}, nil
+		return makeRatConst(new(big.Rat).Mul(n1.r, n2.r)), nil
 	case ast.OperatorDivision:
 		if n2.r.Sign() == 0 {
 			return nil, errDivisionByZero
 		}
-		return ratConst{r: new(big.Rat).Quo(n1.r, n2.r)}, nil
+		return makeRatConst(new(big.Rat).Quo(n1.r, n2.r)), nil
 	}
 	return nil, errInvalidOperation
 }
@@ -1223,7 +1242,7 @@ func toSameConstImpl(c1, c2 constant) (constant, constant) {
 		case intConst:
 			return newIntConst(int64(n1)), n2
 		case float64Const:
-			return newFloatConst(0).setInt64(int64(n1)), newFloatConst(float64(n2))
+			return newRatConst(int64(n1), 1), n2.asExact()
 		case floatConst:
 			return newFloatConst(0).setInt64(int64(n1)), n2
 		case ratConst:
@@ -1234,7 +1253,7 @@ func toSameConstImpl(c1, c2 constant) (constant, constant) {
 	case intConst:
 		switch n2 := c2.(type) {
 		case float64Const:
-			return newFloatConst(0).setInt(n1.i), newFloatConst(float64(n2))
+			return newRatConst(1, 1).setFrac(n1.i, big.NewInt(1)), n2.asExact()
 		case floatConst:
 			return newFloatConst(0).setInt(n1.i), n2
 		case ratConst:
